@@ -41,7 +41,7 @@ TABLES = ['none', 'generic', 'per-code', 'both', 'two-per-key', 'replace-generic
 FLOORS = {'*': {**{f'mw:{k}:depth{d}': 20 for k in MW_KINDS for d in range(3)},
                 **{f'table:{t}:failing': 20 for t in TABLES if t != 'none'},
                 **{f'table:{t}:batch': 5 for t in TABLES}, **{f'table:{t}:notification': 5 for t in TABLES},
-                'flavour:sync': 500, 'flavour:async': 500, 'flavour:async-suspending': 500, 'rejected-documents': 100,
+                'flavour:sync': 500, 'flavour:async': 500, 'flavour:async-suspending': 500, 'flavour:async-sequential': 500, 'rejected-documents': 100,
                 'short-circuit': 300, 'handler-events': 500}}
 
 EVENTS = []
@@ -83,7 +83,7 @@ def make_mw(kind, idx, flavour):
             return out
         return mw
 
-    suspend = flavour == 'async-suspending'
+    suspend = flavour in ('async-suspending', 'async-sequential')
 
     async def amw(request, context, handler):
         pre(request, context)
@@ -113,7 +113,7 @@ def make_handler(key, j, action, flavour):
         return work
 
     async def awork(request, context, error):
-        if flavour == 'async-suspending':
+        if flavour in ('async-suspending', 'async-sequential'):
             await asyncio.sleep(0)
         return work(request, context, error)
     return awork
@@ -230,7 +230,8 @@ def run_case(ctx, stack, table, doc_name, flavour):
     tspec = table_spec(table)
     mws = [make_mw(k, i, flavour) for i, k in enumerate(stack)]
     handlers = {key: [make_handler(key, j, a, flavour) for j, a in enumerate(actions)] for key, actions in tspec.items()}
-    w = world.World(is_async, None, middlewares=mws, error_handlers=handlers)
+    extra = {'concurrent_batch': False} if flavour == 'async-sequential' else {}
+    w = world.World(is_async, None, middlewares=mws, error_handlers=handlers, **extra)
     doc = DOCS[doc_name]
     text = doc if isinstance(doc, str) else json.dumps(doc)
     CTX = world.Context('c12')
@@ -354,7 +355,7 @@ def gen(ctx):
     names = list(DOCS)
     for stack in stacks:
         for table in TABLES:
-            for flavour in ('sync', 'async', 'async-suspending'):
+            for flavour in ('sync', 'async', 'async-suspending', 'async-sequential'):
                 if full:
                     chosen = names
                 else:
